@@ -25,15 +25,6 @@ theorem isAsciiDigit_dch (n : Nat) : isAsciiDigit (dch n) = true := by
   generalize n % 10 = k at *
   rcases lt10_cases k h with h | h | h | h | h | h | h | h | h | h <;> subst h <;> decide
 
-theorem uDigitVal_dch (n : Nat) : uDigitVal (dch n) = some (n % 10) := by
-  unfold dch
-  have h : n % 10 < 10 := Nat.mod_lt _ (by omega)
-  generalize n % 10 = k at *
-  rcases lt10_cases k h with h | h | h | h | h | h | h | h | h | h <;> subst h <;> decide
-
-theorem isUDigit_dch (n : Nat) : isUDigit (dch n) = true := by
-  simp [isUDigit, uDigitVal_dch]
-
 theorem isHoursChar_dch (n : Nat) : isHoursChar (dch n) = true := by
   simp [isHoursChar, isAsciiDigit_dch]
 
@@ -55,16 +46,13 @@ theorem natOfAscii_d4 (n : Nat) (h : n < 10000) : natOfAscii (d4 n) = some n := 
   simp only [natOfAscii, d4, digitsVal, digitVal_dch]
   congr 1; omega
 
-theorem uDigits_d2 (n : Nat) (h : n < 100) : digitsVal uDigitVal 0 (d2 n) = some n := by
-  simp only [d2, digitsVal, uDigitVal_dch]
-  congr 1; omega
-
 /-! ### field patterns -/
 
 theorem hourOk_d2 : ∀ h, h < 24 → hourOk (dch (h / 10)) (dch h) = true := by decide
 theorem minOk_d2 : ∀ m, m < 60 → minOk (dch (m / 10)) (dch m) = true := by decide
 theorem secOk_d2 : ∀ m, m < 60 → secOk (dch (m / 10)) (dch m) = true := by decide
 theorem monthOk_d2 : ∀ m, m < 13 → 1 ≤ m → monthOk (dch (m / 10)) (dch m) = true := by decide
+theorem min2Ok_d2 : ∀ m, m < 60 → min2Ok (dch (m / 10)) (dch m) = true := by decide
 theorem dayOk_d2 : ∀ m, m < 32 → 1 ≤ m → dayOk (dch (m / 10)) (dch m) = true := by decide
 
 /-! ### the offset scanner -/
@@ -107,8 +95,8 @@ def minutesText : Option Nat → Str | some m => '.' :: d2 m | none => []
 def nameText : Option Str → Str | some n => ':' :: n | none => []
 
 theorem offTail_render (h : Str) (mm : Option Nat) (name : Option Str)
-    (hname : ∀ n, name = some n → '\n' ∉ n)
-    (hguard : mm = none → ∀ n, name = some n → nameLooksLikeMinutes n = false) :
+    (hmm : ∀ m, mm = some m → m < 60)
+    (hname : ∀ n, name = some n → '\n' ∉ n) :
     offTail h (minutesText mm ++ (nameText name ++ [']'])) = some (h, mm.map d2, name) := by
   have hnt : nameTail (nameText name ++ [']']) = some name := by
     cases name with
@@ -116,30 +104,17 @@ theorem offTail_render (h : Str) (mm : Option Nat) (name : Option Str)
     | some n => exact nameTail_some n (hname n rfl)
   cases mm with
   | some m =>
-    simp only [minutesText, d2, List.cons_append, List.nil_append, offTail, isUDigit_dch, hnt]
+    simp only [minutesText, d2, List.cons_append, List.nil_append, offTail, min2Ok_d2 m (hmm m rfl), hnt]
     simp [d2]
   | none =>
     simp only [minutesText, List.nil_append, Option.map_none]
     cases name with
     | none => simp [nameText, offTail, nameTail_none]
     | some n =>
-      have hg := hguard rfl n rfl
       have hn := hnt
       simp only [nameText, List.cons_append] at hn ⊢
-      cases n with
-      | nil => simp [offTail]; simpa using hn
-      | cons a n' =>
-        cases n' with
-        | nil =>
-          have : isUDigit ']' = false := by decide
-          simp [offTail, this]; simpa using hn
-        | cons b n'' =>
-          simp only [nameLooksLikeMinutes] at hg
-          simp only [List.cons_append, offTail]
-          have : ((':' != '\n') && isUDigit a && isUDigit b) = false := by
-            rw [Bool.and_assoc, hg]; simp
-          simp only [this]
-          simpa using hn
+      simp only [offTail]
+      simpa using hn
 
 def signText : Option Bool → Str | some true => ['-'] | some false => ['+'] | none => []
 def hoursText (o : OffText) : Str := signText o.sign ++ o.hdigits.map dch
@@ -153,11 +128,11 @@ theorem OffText.render_eq (o : OffText) :
   | none => cases o.minutes <;> cases o.name <;> simp
   | some b => cases b <;> cases o.minutes <;> cases o.name <;> simp
 
-/-- what the offset guards say, as hypotheses of the scanner lemmas -/
+/-- what the scanner lemmas need of an offset text -/
 structure OffScanOk (o : OffText) : Prop where
   digits : o.hdigits ≠ []
+  minutes : ∀ m, o.minutes = some m → m < 60
   name : ∀ n, o.name = some n → '\n' ∉ n
-  guard : o.minutes = none → ∀ n, o.name = some n → nameLooksLikeMinutes n = false
 
 theorem hoursScan_render (o : OffText) (ok : OffScanOk o) :
     hoursScan [] (o.render ++ [']']) = some (hoursText o, o.minutes.map d2, o.name) := by
@@ -188,7 +163,7 @@ theorem hoursScan_render (o : OffText) (ok : OffScanOk o) :
       cases hn : o.name with
       | some n => rw [hn] at hcr; simp [minutesText, nameText] at hcr; rw [← hcr.1]; decide
       | none => rw [hn] at hcr; simp [minutesText, nameText] at hcr; rw [← hcr.1]; decide
-  · simpa using offTail_render (hoursText o) o.minutes o.name ok.name ok.guard
+  · simpa using offTail_render (hoursText o) o.minutes o.name ok.minutes ok.name
 
 /-- the groups the patterns capture for the tail `(.XXX)?([offset])?` -/
 def withTail (g : Groups) (ms : Option Nat) (off : Option OffText) : Groups :=
@@ -226,35 +201,11 @@ theorem timePart_render (g : Groups) (h mi s : Nat) (ms : Option Nat) (off : Opt
     hourOk_d2 h hv.1, minOk_d2 mi hv.2.1, secOk_d2 s hv.2.2, Bool.and_self, if_true]
   exact afterSeconds_render _ ms off hg hoff
 
-theorem stripFinalNewline_snoc (pre : Str) (c : Char) (hc : c ≠ '\n') :
-    stripFinalNewline (pre ++ [c]) = pre ++ [c] := by
-  unfold stripFinalNewline
-  split
-  · rename_i r heq
-    simp at heq
-    exact absurd heq.1 hc
-  · rfl
-
-/-- a rendered text never ends in a line feed -/
-theorem snoc_of_tail (ms : Option Nat) (off : Option OffText) (pre : Str) (c : Char) (hc : c ≠ '\n') :
-    ∃ pre' c', c' ≠ '\n' ∧ pre ++ [c] ++ (msText ms ++ offText off) = pre' ++ [c'] := by
-  cases off with
-  | some o => exact ⟨pre ++ [c] ++ (msText ms ++ '[' :: o.render), ']', by decide, by simp [offText]⟩
-  | none =>
-    cases ms with
-    | some m =>
-      exact ⟨pre ++ [c] ++ ['.', dch (m / 100), dch (m / 10)], dch m, dch_ne_newline m, by simp [msText, offText, d3]⟩
-    | none => exact ⟨pre, c, hc, by simp [msText, offText]⟩
-
 theorem tmRegex_render (h mi s : Nat) (ms : Option Nat) (off : Option OffText)
     (hv : h < 24 ∧ mi < 60 ∧ s < 60) (hoff : ∀ o, off = some o → OffScanOk o) :
     tmRegex (todText h mi s ++ (msText ms ++ offText off))
       = some (withTail { hour := some (d2 h), minute := some (d2 mi), second := some (d2 s) } ms off) := by
   unfold tmRegex
-  obtain ⟨pre', c', hc', he⟩ := snoc_of_tail ms off (d2 h ++ d2 mi ++ [dch (s / 10)]) (dch s) (dch_ne_newline s)
-  have he' : todText h mi s ++ (msText ms ++ offText off) = pre' ++ [c'] := by
-    rw [← he]; simp [todText, d2]
-  rw [he', stripFinalNewline_snoc pre' c' hc', ← he']
   exact timePart_render {} h mi s ms off hv ⟨rfl, rfl, rfl, rfl⟩ hoff
 
 def dateText (y m d : Nat) : Str := d4 y ++ d2 m ++ d2 d
@@ -262,9 +213,7 @@ def dateText (y m d : Nat) : Str := d4 y ++ d2 m ++ d2 d
 theorem dtRegex_render_date (y m d : Nat) (hm : 1 ≤ m ∧ m ≤ 12) (hd : 1 ≤ d ∧ d ≤ 31) :
     dtRegex (dateText y m d) = some { year := some (d4 y), month := some (d2 m), day := some (d2 d) } := by
   unfold dtRegex
-  have he : dateText y m d = (d4 y ++ d2 m ++ [dch (d / 10)]) ++ [dch d] := by simp [dateText, d2]
-  rw [he, stripFinalNewline_snoc _ _ (dch_ne_newline d)]
-  simp [d4, d2, isAsciiDigit_dch, mdOk, monthOk_d2 m (by omega) hm.1, dayOk_d2 d (by omega) hd.1]
+  simp [dateText, d4, d2, isAsciiDigit_dch, mdOk, monthOk_d2 m (by omega) hm.1, dayOk_d2 d (by omega) hd.1]
 
 theorem dtRegex_render_full (y m d h mi s : Nat) (ms : Option Nat) (off : Option OffText)
     (hm : 1 ≤ m ∧ m ≤ 12) (hd : 1 ≤ d ∧ d ≤ 31)
@@ -273,10 +222,6 @@ theorem dtRegex_render_full (y m d h mi s : Nat) (ms : Option Nat) (off : Option
       = some (withTail { year := some (d4 y), month := some (d2 m), day := some (d2 d),
                          hour := some (d2 h), minute := some (d2 mi), second := some (d2 s) } ms off) := by
   unfold dtRegex
-  obtain ⟨pre', c', hc', he⟩ := snoc_of_tail ms off (dateText y m d ++ d2 h ++ d2 mi ++ [dch (s / 10)]) (dch s) (dch_ne_newline s)
-  have he' : dateText y m d ++ (todText h mi s ++ (msText ms ++ offText off)) = pre' ++ [c'] := by
-    rw [← he]; simp [todText, d2]
-  rw [he', stripFinalNewline_snoc pre' c' hc', ← he']
   have ht := timePart_render { year := some (d4 y), month := some (d2 m), day := some (d2 d) } h mi s ms off hv
     ⟨rfl, rfl, rfl, rfl⟩ hoff
   simp only [dateText, d4, d2, List.cons_append, List.nil_append, isAsciiDigit_dch, mdOk,
@@ -335,80 +280,110 @@ theorem pyIntSigned_hoursText (o : OffText) (hne : o.hdigits ≠ []) (hd : ∀ d
         have h := isAsciiDigit_dch a; rw [this] at h; exact absurd h (by decide)
       · simpa using hb
 
+theorem startsMinus_hoursText (o : OffText) (hne : o.hdigits ≠ []) :
+    startsMinus (some (hoursText o)) = decide (o.sign = some true) := by
+  unfold hoursText signText
+  cases hs : o.sign with
+  | some b => cases b <;> simp [startsMinus]
+  | none =>
+    cases hh : o.hdigits with
+    | nil => exact absurd hh hne
+    | cons a r =>
+      simp only [List.nil_append, List.map_cons]
+      unfold startsMinus
+      split
+      · rename_i t heq
+        have : dch a = '-' := by
+          injection heq with heq
+          exact (List.cons.inj heq).1
+        have h := isAsciiDigit_dch a; rw [this] at h; exact absurd h (by decide)
+      · simp
+
+/-- `gmt_offset` followed by the `-0` correction gives the offset the text denotes -/
 theorem gmtOffset_of_wf (o : OffText) (hmm : ∀ m, o.minutes = some m → m < 60)
-    (hr : -720 ≤ o.minutesEast ∧ o.minutesEast ≤ 840) (hg : o.negZeroHour = false) :
-    gmtOffset (if o.sign = some true then -((hoursVal o.hdigits : Nat) : Int) else ((hoursVal o.hdigits : Nat) : Int))
-      (o.minutes.getD 0) = .ok o.minutesEast := by
+    (hh : if o.sign = some true then hoursVal o.hdigits ≤ 12 else hoursVal o.hdigits ≤ 14) :
+    ∃ X, gmtOffset (if o.sign = some true then -((hoursVal o.hdigits : Nat) : Int) else ((hoursVal o.hdigits : Nat) : Int))
+        (o.minutes.getD 0) = .ok X
+      ∧ (if (decide (o.sign = some true) &&
+            (if o.sign = some true then -((hoursVal o.hdigits : Nat) : Int) else ((hoursVal o.hdigits : Nat) : Int)) == 0) = true
+          then -X else X) = o.minutesEast := by
   have hm60 : o.minutes.getD 0 < 60 := by
     cases h : o.minutes with
     | none => simp
     | some m => simpa using hmm m h
-  unfold OffText.minutesEast at hr ⊢
-  unfold OffText.negZeroHour at hg
+  unfold OffText.minutesEast
   generalize hoursVal o.hdigits = hv at *
   generalize o.minutes.getD 0 = mm at *
   unfold gmtOffset
   by_cases hs : o.sign = some true
-  · simp only [hs, if_true] at hr hg ⊢
-    simp at hg
+  · simp only [hs, if_true] at hh ⊢
     have h1 : ¬ (-(hv : Int) < -12 ∨ -(hv : Int) > 14) := by omega
     simp only [h1, if_false]
     by_cases h0 : hv = 0
-    · have := hg h0; subst h0; subst this; simp
+    · subst h0
+      refine ⟨_, rfl, ?_⟩
+      simp
     · have hneg : -(hv : Int) < 0 := by omega
-      simp only [hneg, if_true]
-      congr 1
+      have hnz : ((-(hv : Int)) == 0) = false := by simp; omega
+      refine ⟨_, rfl, ?_⟩
+      simp only [hneg, if_true, hnz, decide_true, Bool.and_false, Bool.false_eq_true, if_false]
       have : ((-(hv : Int)).natAbs : Int) = hv := by omega
-      push_cast; omega
-  · simp only [hs, if_false] at hr ⊢
+      omega
+  · simp only [hs, if_false] at hh ⊢
     have h1 : ¬ ((hv : Int) < -12 ∨ (hv : Int) > 14) := by omega
     have hneg : ¬ (hv : Int) < 0 := by omega
     simp only [h1, if_false, hneg]
+    refine ⟨_, rfl, ?_⟩
     simp
 
 /-- offset of an optional `[…]` part, minutes east (absent = GMT) -/
 def offMinutes : Option OffText → Int | some o => o.minutesEast | none => 0
 
-/-- everything the read theorems assume about an offset text -/
+/-- everything the read theorems assume about an offset text: well-formed, and within CPython's `int()` limit -/
 structure OffReadOk (o : OffText) : Prop where
   wf : o.wf = true
   len : o.hdigits.length ≤ intMaxStrDigits
-  notNegZero : o.negZeroHour = false
-  nameGuard : o.minutes = none → ∀ n, o.name = some n → nameLooksLikeMinutes n = false
 
-theorem OffReadOk.scan {o : OffText} (h : OffReadOk o) : OffScanOk o := by
-  have hwf := h.wf
+theorem wf_parts {o : OffText} (hwf : o.wf = true) :
+    o.hdigits ≠ [] ∧ (∀ d ∈ o.hdigits, d < 10) ∧ (∀ m, o.minutes = some m → m < 60)
+    ∧ (∀ n, o.name = some n → '\n' ∉ n)
+    ∧ (if o.sign = some true then hoursVal o.hdigits ≤ 12 else hoursVal o.hdigits ≤ 14) := by
   simp only [OffText.wf, Bool.and_eq_true] at hwf
   obtain ⟨⟨⟨⟨h1, h2⟩, h3⟩, h4⟩, h5⟩ := hwf
-  refine ⟨?_, ?_, h.nameGuard⟩
+  refine ⟨?_, ?_, ?_, ?_, ?_⟩
   · intro he; rw [he] at h1; simp at h1
+  · intro d hdm; rw [List.all_eq_true] at h2; simpa using h2 d hdm
+  · intro m hm; rw [hm] at h3; simpa using h3
   · intro n hn; rw [hn] at h4; simpa using h4
+  · by_cases hs : o.sign = some true
+    · simp only [hs, if_true] at h5 ⊢; simpa using h5
+    · simp only [hs, if_false] at h5 ⊢; simpa using h5
+
+theorem OffReadOk.scan {o : OffText} (h : OffReadOk o) : OffScanOk o := by
+  obtain ⟨a, _, c, d, _⟩ := wf_parts h.wf
+  exact ⟨a, c, d⟩
+
+theorem intOfAscii_min (mm : Option Nat) (h : ∀ m, mm = some m → m < 60) :
+    intOfAscii (mm.map d2) = .ok (mm.getD 0) := by
+  cases mm with
+  | none => rfl
+  | some m => simp [intOfAscii, natOfAscii_d2 m (by have := h m rfl; omega)]
 
 theorem parseGmtOffset_render (tzs : List (Str × Int)) (off : Option OffText)
     (hoff : ∀ o, off = some o → OffReadOk o) :
     parseGmtOffset tzs (off.map hoursText) (off.bind (fun o => o.minutes.map d2)) (off.bind (fun o => o.name))
       = .ok (offMinutes off) := by
   cases off with
-  | none => simp [parseGmtOffset, intOfUDigits, gmtOffset, offMinutes, bind, Except.bind, pure, Except.pure]
+  | none => simp [parseGmtOffset, intOfAscii, gmtOffset, offMinutes, startsMinus, bind, Except.bind, pure, Except.pure]
   | some o =>
     have ok := hoff o rfl
-    have hwf := ok.wf
-    simp only [OffText.wf, Bool.and_eq_true] at hwf
-    obtain ⟨⟨⟨⟨h1, h2⟩, h3⟩, h4⟩, h5⟩ := hwf
-    have hne : o.hdigits ≠ [] := ok.scan.digits
-    have hd : ∀ d ∈ o.hdigits, d < 10 := by
-      intro d hdm; rw [List.all_eq_true] at h2; simpa using h2 d hdm
-    have hmm : ∀ m, o.minutes = some m → m < 60 := by
-      intro m hm; rw [hm] at h3; simpa using h3
-    have hr : -720 ≤ o.minutesEast ∧ o.minutesEast ≤ 840 := by simpa using h5
+    obtain ⟨hne, hd, hmm, _, hh⟩ := wf_parts ok.wf
     have hint := pyIntSigned_hoursText o hne hd ok.len
-    have hmin : intOfUDigits (o.minutes.map d2) = .ok (o.minutes.getD 0) := by
-      cases hm : o.minutes with
-      | none => rfl
-      | some m => simp [intOfUDigits, uDigits_d2 m (by have := hmm m hm; omega)]
-    simp only [Option.map_some, Option.bind_some, parseGmtOffset, hint, hmin, bind, Except.bind, pure, Except.pure,
-      offMinutes]
-    exact gmtOffset_of_wf o hmm hr ok.notNegZero
+    have hmin := intOfAscii_min o.minutes hmm
+    obtain ⟨X, hX, hflip⟩ := gmtOffset_of_wf o hmm hh
+    simp only [Option.map_some, Option.bind_some, parseGmtOffset, hint, hmin, hX, bind, Except.bind, pure, Except.pure,
+      offMinutes, startsMinus_hoursText o hne]
+    exact congrArg Except.ok hflip
 
 /-! ### microsecond arithmetic -/
 
@@ -558,7 +533,7 @@ theorem dtConvertStr_date (tzs : List (Str × Int)) (y m d : Nat)
   rw [← toUs_instant y m d 0 0 0 0 ⟨m1, m2⟩ 0] at u1 u2 ⊢
   obtain ⟨f, hf, v1, v2, v3⟩ := fromUs_spec _ u1 u2
   refine ⟨f, ?_, v1, v2, v3⟩
-  simp only [dtConvertStr, dtRegex_render_date y m d ⟨m1, m2⟩ ⟨d1, d2'⟩, parseGmtOffset, intOfUDigits, gmtOffset,
+  simp only [dtConvertStr, dtRegex_render_date y m d ⟨m1, m2⟩ ⟨d1, d2'⟩, parseGmtOffset, startsMinus, gmtOffset,
     intOfAscii_d4 y (by omega), intOfAscii_d2 m (by omega), intOfAscii_d2 d (by omega), intOfAscii_none,
     bind, Except.bind, pure, Except.pure, hvd]
   simp only [Nat.mul_zero, Int.sub_zero, Int.zero_mul] at hf ⊢
@@ -730,7 +705,7 @@ theorem timePart_inv (g g' : Groups) (r : Str) (h : timePart g r = some g') :
   · exact absurd h (by simp)
 
 theorem dtRegex_inv (s : Str) (g : Groups) (h : dtRegex s = some g) :
-    ∃ y1 y2 y3 y4 m1 m2 d1 d2 r, stripFinalNewline s = y1 :: y2 :: y3 :: y4 :: m1 :: m2 :: d1 :: d2 :: r
+    ∃ y1 y2 y3 y4 m1 m2 d1 d2 r, s = y1 :: y2 :: y3 :: y4 :: m1 :: m2 :: d1 :: d2 :: r
       ∧ g.year = some [y1, y2, y3, y4] ∧ g.month = some [m1, m2] ∧ g.day = some [d1, d2]
       ∧ ((r = [] ∧ g.hour = none ∧ g.minute = none ∧ g.second = none ∧ g.ms = none) ∨
           ∃ h1 h2 mi1 mi2 s1 s2 r', r = h1 :: h2 :: mi1 :: mi2 :: s1 :: s2 :: r'
@@ -738,8 +713,8 @@ theorem dtRegex_inv (s : Str) (g : Groups) (h : dtRegex s = some g) :
             ∧ (r' = [] ∨ ∃ c t, r' = c :: t ∧ (c = '.' ∨ c = '['))) := by
   unfold dtRegex at h
   split at h
-  · rename_i y1 y2 y3 y4 m1 m2 d1 d2 r heq
-    refine ⟨y1, y2, y3, y4, m1, m2, d1, d2, r, heq, ?_⟩
+  · rename_i y1 y2 y3 y4 m1 m2 d1 d2 r
+    refine ⟨y1, y2, y3, y4, m1, m2, d1, d2, r, rfl, ?_⟩
     split at h
     · simp only [] at h
       split at h
@@ -750,14 +725,291 @@ theorem dtRegex_inv (s : Str) (g : Groups) (h : dtRegex s = some g) :
     · exact absurd h (by simp)
   · exact absurd h (by simp)
 
-theorem stripFinalNewline_cases (s : Str) : s = stripFinalNewline s ∨ s = stripFinalNewline s ++ ['\n'] := by
-  unfold stripFinalNewline
-  split
+/-! ### inversion of the offset scanner and of `int()` -/
+
+theorem splitName_inv (t n : Str) (h : splitName t = some n) : t = n ++ [']'] ∧ '\n' ∉ n := by
+  unfold splitName at h
+  split at h
   · rename_i r heq
-    right
-    have := congrArg List.reverse heq
-    simpa using this
-  · left; rfl
+    split at h
+    · exact absurd h (by simp)
+    · rename_i hc
+      injection h with h
+      subst h
+      have := congrArg List.reverse heq
+      simp only [List.reverse_reverse, List.reverse_cons] at this
+      refine ⟨this, ?_⟩
+      simpa using hc
+  · exact absurd h (by simp)
+
+theorem nameTail_inv (r : Str) (x : Option Str) (h : nameTail r = some x) :
+    (x = none ∧ r = [']']) ∨ (∃ n, x = some n ∧ r = ':' :: (n ++ [']']) ∧ '\n' ∉ n) := by
+  unfold nameTail at h
+  simp only [] at h
+  split at h
+  · rename_i y hy
+    injection h with h
+    subst h
+    split at hy
+    · rename_i t
+      rw [Option.map_eq_some_iff] at hy
+      obtain ⟨n, hn, rfl⟩ := hy
+      obtain ⟨e1, e2⟩ := splitName_inv t n hn
+      exact Or.inr ⟨n, rfl, by rw [e1], e2⟩
+    · exact absurd hy (by simp)
+  · split at h
+    · rename_i hr
+      injection h with h
+      exact Or.inl ⟨h.symm, hr⟩
+    · exact absurd h (by simp)
+
+theorem offTail_inv (hh rest : Str) (x : Str × Option Str × Option Str) (hx : offTail hh rest = some x) :
+    x.1 = hh ∧ ∃ mt rest', rest = mt ++ rest' ∧ nameTail rest' = some x.2.2
+      ∧ ((mt = [] ∧ x.2.1 = none) ∨ ∃ d1 d2, mt = ['.', d1, d2] ∧ min2Ok d1 d2 = true ∧ x.2.1 = some [d1, d2]) := by
+  unfold offTail at hx
+  simp only [] at hx
+  split at hx
+  · rename_i y hy
+    injection hx with hx
+    subst hx
+    split at hy
+    · rename_i d1 d2 r
+      split at hy
+      · rename_i hok
+        rw [Option.map_eq_some_iff] at hy
+        obtain ⟨n, hn, rfl⟩ := hy
+        exact ⟨rfl, ['.', d1, d2], r, rfl, hn, Or.inr ⟨d1, d2, rfl, hok, rfl⟩⟩
+      · exact absurd hy (by simp)
+    · exact absurd hy (by simp)
+  · rw [Option.map_eq_some_iff] at hx
+    obtain ⟨n, hn, rfl⟩ := hx
+    exact ⟨rfl, [], rest, rfl, hn, Or.inl ⟨rfl, rfl⟩⟩
+
+theorem hoursScan_inv (t : Str) : ∀ (acc : Str) (x : Str × Option Str × Option Str),
+    hoursScan acc t = some x →
+    ∃ h' t', h' ≠ [] ∧ (∀ c ∈ h', isHoursChar c = true) ∧ t = h' ++ t' ∧ offTail (acc.reverse ++ h') t' = some x := by
+  induction t with
+  | nil => intro acc x h; simp [hoursScan] at h
+  | cons c cs ih =>
+    intro acc x h
+    unfold hoursScan at h
+    split at h
+    · rename_i hc
+      split at h
+      · rename_i y hy
+        injection h with h
+        subst h
+        obtain ⟨h'', t', _, hall, hcs, hoff⟩ := ih (c :: acc) y hy
+        refine ⟨c :: h'', t', by simp, ?_, by rw [hcs]; rfl, ?_⟩
+        · intro d hd
+          rcases List.mem_cons.mp hd with rfl | hd
+          · exact hc
+          · exact hall d hd
+        · simpa using hoff
+      · exact ⟨[c], cs, by simp, by intro d hd; simp at hd; subst hd; exact hc, rfl, by simpa using h⟩
+    · exact absurd h (by simp)
+
+def msRaw : Option Str → Str | some t => '.' :: t | none => []
+
+/-- full structure of what follows the seconds -/
+theorem afterSeconds_struct (g0 g : Groups) (r : Str)
+    (h0 : g0.ms = none ∧ g0.offH = none ∧ g0.offM = none ∧ g0.name = none)
+    (h : afterSeconds g0 r = some g) :
+    sameHead g0 g ∧ ∃ r2, r = msRaw g.ms ++ r2
+      ∧ (∀ t, g.ms = some t → ∃ a b c, t = [a, b, c] ∧ isAsciiDigit a = true ∧ isAsciiDigit b = true ∧ isAsciiDigit c = true)
+      ∧ ((r2 = [] ∧ g.offH = none ∧ g.offM = none ∧ g.name = none)
+          ∨ ∃ t hh, r2 = '[' :: t ∧ g.offH = some hh ∧ hoursScan [] t = some (hh, g.offM, g.name)) := by
+  obtain ⟨y, mo, d, hr, mi, s, ms', oh, om, nm⟩ := g0
+  simp only at h0
+  obtain ⟨rfl, rfl, rfl, rfl⟩ := h0
+  unfold afterSeconds at h
+  simp only [] at h
+  split at h
+  · rename_i a b c t
+    split at h
+    · rename_i hdig
+      simp only [Bool.and_eq_true] at hdig
+      split at h
+      · injection h with h; subst h
+        exact ⟨⟨rfl, rfl, rfl, rfl, rfl, rfl⟩, [], by simp [msRaw],
+          by intro t ht; injection ht with ht; exact ⟨a, b, c, ht.symm, hdig.1.1, hdig.1.2, hdig.2⟩,
+          Or.inl ⟨rfl, rfl, rfl, rfl⟩⟩
+      · rename_i t'
+        rw [Option.map_eq_some_iff] at h
+        obtain ⟨x, hx, rfl⟩ := h
+        exact ⟨⟨rfl, rfl, rfl, rfl, rfl, rfl⟩, '[' :: t', by simp [msRaw],
+          by intro t ht; injection ht with ht; exact ⟨a, b, c, ht.symm, hdig.1.1, hdig.1.2, hdig.2⟩,
+          Or.inr ⟨t', x.1, rfl, rfl, by simpa using hx⟩⟩
+      · exact absurd h (by simp)
+    · exact absurd h (by simp)
+  · split at h
+    · injection h with h; subst h
+      exact ⟨⟨rfl, rfl, rfl, rfl, rfl, rfl⟩, [], by simp [msRaw], by intro t ht; simp at ht, Or.inl ⟨rfl, rfl, rfl, rfl⟩⟩
+    · rename_i t' _
+      rw [Option.map_eq_some_iff] at h
+      obtain ⟨x, hx, rfl⟩ := h
+      exact ⟨⟨rfl, rfl, rfl, rfl, rfl, rfl⟩, '[' :: t', by simp [msRaw], by intro t ht; simp at ht,
+        Or.inr ⟨t', x.1, rfl, rfl, by simpa using hx⟩⟩
+    · exact absurd h (by simp)
+
+theorem min2Ok_inv (d1 d2c : Char) (h : min2Ok d1 d2c = true) : ∃ mm, mm < 60 ∧ [d1, d2c] = d2 mm := by
+  simp only [min2Ok, Bool.and_eq_true, decide_eq_true_eq] at h
+  obtain ⟨⟨h1, h2⟩, h3⟩ := h
+  have hd1 : isAsciiDigit d1 = true := by
+    simp only [isAsciiDigit, Bool.and_eq_true, decide_eq_true_eq]
+    exact ⟨h1, Char.le_trans h2 (by decide)⟩
+  obtain ⟨k1, hk1, e1⟩ := asciiDigit_eq_dch d1 hd1
+  obtain ⟨k2, hk2, e2⟩ := asciiDigit_eq_dch d2c h3
+  have hk5 : k1 ≤ 5 := by
+    rw [e1] at h2
+    rcases lt10_cases k1 hk1 with h | h | h | h | h | h | h | h | h | h <;> subst h <;> first | omega | (exact absurd h2 (by decide))
+  refine ⟨10 * k1 + k2, by omega, ?_⟩
+  rw [e1, e2, d2]
+  congr 1
+  · exact dch_congr (by omega)
+  · congr 1; exact dch_congr (by omega)
+
+theorem digitsVal_inv (t : Str) : ∀ (acc n : Nat), digitsVal digitVal acc t = some n →
+    ∃ ds : List Nat, t = ds.map dch ∧ (∀ d ∈ ds, d < 10) ∧ n = ds.foldl (fun a d => 10 * a + d) acc := by
+  induction t with
+  | nil => intro acc n h; simp [digitsVal] at h; exact ⟨[], rfl, by simp, by simp [h]⟩
+  | cons c cs ih =>
+    intro acc n h
+    unfold digitsVal at h
+    split at h
+    · rename_i k hk
+      obtain ⟨hk10, ec⟩ := digitVal_some c k hk
+      obtain ⟨ds, e1, e2, e3⟩ := ih _ _ h
+      refine ⟨k :: ds, by rw [e1, ec]; rfl, ?_, by simpa using e3⟩
+      intro d hd
+      rcases List.mem_cons.mp hd with rfl | hd
+      · exact hk10
+      · exact e2 d hd
+    · exact absurd h (by simp)
+
+/-- `int()` succeeded on a text over `[0-9+-]`: it is sign? digits+ -/
+theorem pyIntSigned_inv (t : Str) (v : Int) (h : pyIntSigned t = some v) :
+    ∃ (sign : Option Bool) (ds : List Nat), t = signText sign ++ ds.map dch ∧ ds ≠ [] ∧ (∀ d ∈ ds, d < 10)
+      ∧ ds.length ≤ intMaxStrDigits
+      ∧ v = (if sign = some true then -((hoursVal ds : Nat) : Int) else ((hoursVal ds : Nat) : Int)) := by
+  have body : ∀ (neg : Bool) (u : Str),
+      (if u.isEmpty || u.length > intMaxStrDigits then none
+        else (natOfAscii u).map (fun n => if neg then -(n : Int) else (n : Int))) = some v →
+      ∃ ds : List Nat, u = ds.map dch ∧ ds ≠ [] ∧ (∀ d ∈ ds, d < 10) ∧ ds.length ≤ intMaxStrDigits
+        ∧ v = (if neg then -((hoursVal ds : Nat) : Int) else ((hoursVal ds : Nat) : Int)) := by
+    intro neg u hu
+    split at hu
+    · exact absurd hu (by simp)
+    · rename_i hcond
+      simp only [Bool.or_eq_true, decide_eq_true_eq, not_or] at hcond
+      cases hn : natOfAscii u with
+      | none => simp [hn] at hu
+      | some n =>
+        obtain ⟨ds, e1, e2, e3⟩ := digitsVal_inv u 0 n hn
+        refine ⟨ds, e1, ?_, e2, ?_, ?_⟩
+        · intro hds; subst hds; simp at e1; subst e1; simp at hcond
+        · have := hcond.2; rw [e1] at this; simpa using this
+        · simp [hn] at hu
+          rw [← hu, e3, hoursVal]
+  unfold pyIntSigned at h
+  split at h
+  · rename_i ds'
+    obtain ⟨ds, e1, e2, e3, e4, e5⟩ := body true ds' h
+    exact ⟨some true, ds, by rw [e1]; rfl, e2, e3, e4, by simpa using e5⟩
+  · rename_i ds'
+    obtain ⟨ds, e1, e2, e3, e4, e5⟩ := body false ds' h
+    exact ⟨some false, ds, by rw [e1]; rfl, e2, e3, e4, by simpa using e5⟩
+  · rename_i ds' _ _
+    obtain ⟨ds, e1, e2, e3, e4, e5⟩ := body false t h
+    exact ⟨none, ds, by rw [e1]; rfl, e2, e3, e4, by simpa using e5⟩
+
+
+/-- what follows the seconds, given the groups the match produced -/
+def TailStruct (g : Groups) (r : Str) : Prop :=
+  ∃ r2, r = msRaw g.ms ++ r2
+    ∧ (∀ t, g.ms = some t → ∃ a b c, t = [a, b, c] ∧ isAsciiDigit a = true ∧ isAsciiDigit b = true ∧ isAsciiDigit c = true)
+    ∧ ((r2 = [] ∧ g.offH = none ∧ g.offM = none ∧ g.name = none)
+        ∨ ∃ t hh, r2 = '[' :: t ∧ g.offH = some hh ∧ hoursScan [] t = some (hh, g.offM, g.name))
+
+theorem timePart_struct (g0 g : Groups) (r : Str)
+    (h0 : g0.ms = none ∧ g0.offH = none ∧ g0.offM = none ∧ g0.name = none)
+    (h : timePart g0 r = some g) :
+    ∃ h1 h2 m1 m2 s1 s2 r', r = h1 :: h2 :: m1 :: m2 :: s1 :: s2 :: r'
+      ∧ g.year = g0.year ∧ g.month = g0.month ∧ g.day = g0.day
+      ∧ g.hour = some [h1, h2] ∧ g.minute = some [m1, m2] ∧ g.second = some [s1, s2]
+      ∧ TailStruct g r' := by
+  unfold timePart at h
+  split at h
+  · rename_i h1 h2 m1 m2 s1 s2 r'
+    split at h
+    · obtain ⟨⟨a, b, c, d, e, f⟩, hs⟩ := afterSeconds_struct _ _ _ (by exact h0) h
+      exact ⟨h1, h2, m1, m2, s1, s2, r', rfl, a, b, c, d, e, f, hs⟩
+    · exact absurd h (by simp)
+  · exact absurd h (by simp)
+
+theorem dtRegex_struct (s : Str) (g : Groups) (h : dtRegex s = some g) :
+    ∃ y1 y2 y3 y4 m1 m2 d1 d2 r, s = y1 :: y2 :: y3 :: y4 :: m1 :: m2 :: d1 :: d2 :: r
+      ∧ g.year = some [y1, y2, y3, y4] ∧ g.month = some [m1, m2] ∧ g.day = some [d1, d2]
+      ∧ ((r = [] ∧ g.hour = none ∧ g.minute = none ∧ g.second = none ∧ g.ms = none
+            ∧ g.offH = none ∧ g.offM = none ∧ g.name = none) ∨
+          ∃ h1 h2 mi1 mi2 s1 s2 r', r = h1 :: h2 :: mi1 :: mi2 :: s1 :: s2 :: r'
+            ∧ g.hour = some [h1, h2] ∧ g.minute = some [mi1, mi2] ∧ g.second = some [s1, s2]
+            ∧ TailStruct g r') := by
+  unfold dtRegex at h
+  split at h
+  · rename_i y1 y2 y3 y4 m1 m2 d1 d2 r
+    refine ⟨y1, y2, y3, y4, m1, m2, d1, d2, r, rfl, ?_⟩
+    split at h
+    · simp only [] at h
+      split at h
+      · injection h with h; subst h
+        exact ⟨rfl, rfl, rfl, Or.inl ⟨rfl, rfl, rfl, rfl, rfl, rfl, rfl, rfl⟩⟩
+      · obtain ⟨h1, h2, mi1, mi2, s1, s2, r', hr, a, b, c, d, e, f, hs⟩ :=
+          timePart_struct _ _ _ ⟨rfl, rfl, rfl, rfl⟩ h
+        exact ⟨a, b, c, Or.inr ⟨h1, h2, mi1, mi2, s1, s2, r', hr, d, e, f, hs⟩⟩
+    · exact absurd h (by simp)
+  · exact absurd h (by simp)
+
+/-- an offset body the scanner accepted and whose hours text is an integer in −12 … 14 is a well-formed
+    offset text of the notation -/
+theorem offset_in_notation (hh : Str) (om nm : Option Str) (t : Str) (hv : Int)
+    (hscan : hoursScan [] t = some (hh, om, nm)) (hint : pyIntSigned hh = some hv) (hr : -12 ≤ hv ∧ hv ≤ 14) :
+    ∃ o : OffText, o.wf = true ∧ t = o.render ++ [']'] ∧ hoursText o = hh ∧ om = o.minutes.map d2 ∧ nm = o.name := by
+  obtain ⟨h', t', _, _, ht, hoff⟩ := hoursScan_inv t [] _ hscan
+  simp only [List.reverse_nil, List.nil_append] at hoff
+  obtain ⟨e1, mt, rest', hrest, hnt, hmt⟩ := offTail_inv _ _ _ hoff
+  simp only at e1 hnt hmt
+  subst e1
+  obtain ⟨sign, ds, ehh, hne, hlt, _, hval⟩ := pyIntSigned_inv hh hv hint
+  have hmin : ∃ mm : Option Nat, (∀ m, mm = some m → m < 60) ∧ mt = minutesText mm ∧ om = mm.map d2 := by
+    rcases hmt with ⟨rfl, rfl⟩ | ⟨d1, d2c, rfl, hok, rfl⟩
+    · exact ⟨none, by simp, rfl, rfl⟩
+    · obtain ⟨mm, hmm, e⟩ := min2Ok_inv d1 d2c hok
+      exact ⟨some mm, by intro m hm; injection hm with hm; omega, by simp [minutesText, ← e], by simp [e]⟩
+  obtain ⟨mm, hmm, emt, eom⟩ := hmin
+  have hname : (∀ n, nm = some n → '\n' ∉ n) ∧ rest' = nameText nm ++ [']'] := by
+    rcases nameTail_inv _ _ hnt with ⟨rfl, rfl⟩ | ⟨n, rfl, rfl, hn⟩
+    · exact ⟨by simp, rfl⟩
+    · exact ⟨by intro n' hn'; injection hn' with hn'; subst hn'; exact hn, rfl⟩
+  obtain ⟨hnm, erest⟩ := hname
+  refine ⟨⟨sign, ds, mm, nm⟩, ?_, ?_, ehh.symm ▸ rfl, eom, rfl⟩
+  · simp only [OffText.wf, Bool.and_eq_true]
+    refine ⟨⟨⟨⟨?_, ?_⟩, ?_⟩, ?_⟩, ?_⟩
+    · cases ds with
+      | nil => exact absurd rfl hne
+      | cons a r => rfl
+    · rw [List.all_eq_true]; intro d hd; simpa using hlt d hd
+    · cases mm with
+      | none => rfl
+      | some m => simpa using hmm m rfl
+    · cases nm with
+      | none => rfl
+      | some n => simpa using hnm n rfl
+    · by_cases hs : sign = some true
+      · simp only [hs, if_true] at hval ⊢; simp; omega
+      · simp only [hs, if_false] at hval ⊢; simp; omega
+  · rw [OffText.render_eq, ht, hrest, emt, erest, ehh]
+    simp [hoursText]
 
 /-! ### writing -/
 
@@ -872,12 +1124,10 @@ theorem canonOff_minutesEast (offMin : Int) (name : Option Str) (hh : offMin.nat
 theorem canonOff_wf (offMin : Int) (name : Option Str) (hr : -720 ≤ offMin ∧ offMin ≤ 840)
     (hname : ∀ n, name = some n → '\n' ∉ n) : (canonOff offMin name).wf = true := by
   have hh : offMin.natAbs / 60 < 25 := by omega
-  have hme := canonOff_minutesEast offMin name hh
-  obtain ⟨h1, h2, _, _, _⟩ := natDigits_small _ hh
+  obtain ⟨h1, h2, h3, _, _⟩ := natDigits_small _ hh
   unfold OffText.wf
-  rw [hme]
-  simp only [canonOff, Bool.and_eq_true, decide_eq_true_eq]
-  refine ⟨⟨⟨⟨?_, h2⟩, ?_⟩, ?_⟩, hr.1, hr.2⟩
+  simp only [canonOff, Bool.and_eq_true, h3]
+  refine ⟨⟨⟨⟨?_, h2⟩, ?_⟩, ?_⟩, ?_⟩
   · cases hd : natDigits (offMin.natAbs / 60) with
     | nil => exact absurd hd h1
     | cons a r => rfl
@@ -887,6 +1137,9 @@ theorem canonOff_wf (offMin : Int) (name : Option Str) (hr : -720 ≤ offMin ∧
   · cases name with
     | none => rfl
     | some n => simpa using hname n rfl
+  · by_cases hneg : offMin < 0
+    · simp [hneg]; omega
+    · simp [hneg]; omega
 
 theorem utcoffset_not (tz : Tz) (hr : -usPerDay < tz.offUs ∧ tz.offUs < usPerDay) :
     ¬ (tz.offUs ≤ -usPerDay ∨ tz.offUs ≥ usPerDay) := by omega
@@ -1226,4 +1479,283 @@ theorem inNotationB_sound (isTime : Bool) (s : Str) (h : inNotationB isTime s = 
   cases hp : parse isTime s with
   | none => rw [hp] at h; simp at h
   | some p => exact ⟨p, parse_sound _ _ _ hp⟩
+/-! ### … and complete: `InNotation` is decided by `inNotationB` -/
+
+theorem dval_dch (n : Nat) : dval (dch n) = some (n % 10) := digitVal_dch n
+
+theorem takeNum2_d2 (v : Nat) (r : Str) (h : v < 100) : takeNum 2 0 (d2 v ++ r) = some (v, r) := by
+  simp only [d2, List.cons_append, List.nil_append, takeNum, dval_dch]
+  congr 2; omega
+
+theorem takeNum3_d3 (v : Nat) (r : Str) (h : v < 1000) : takeNum 3 0 (d3 v ++ r) = some (v, r) := by
+  simp only [d3, List.cons_append, List.nil_append, takeNum, dval_dch]
+  congr 2; omega
+
+theorem takeNum4_d4 (v : Nat) (r : Str) (h : v < 10000) : takeNum 4 0 (d4 v ++ r) = some (v, r) := by
+  simp only [d4, List.cons_append, List.nil_append, takeNum, dval_dch]
+  congr 2; omega
+
+/-- the next character is not an ASCII digit (or there is none) -/
+def noDigitHead : Str → Prop
+  | [] => True
+  | c :: _ => dval c = none
+
+theorem spanDigits_map (ds : List Nat) (r : Str) (hd : ∀ d ∈ ds, d < 10) (hr : noDigitHead r) :
+    spanDigits (ds.map dch ++ r) = (ds, r) := by
+  induction ds with
+  | nil =>
+    cases r with
+    | nil => rfl
+    | cons c cs => simp only [List.map_nil, List.nil_append, spanDigits]; simp only [noDigitHead] at hr; rw [hr]
+  | cons d ds ih =>
+    have hd' : d < 10 := hd d (by simp)
+    simp only [List.map_cons, List.cons_append, spanDigits, dval_dch, Nat.mod_eq_of_lt hd']
+    rw [ih (fun x hx => hd x (by simp [hx]))]
+
+theorem takeMinutes_text (mm : Option Nat) (r : Str) (hmm : ∀ m, mm = some m → m < 100)
+    (hr : mm = none → ∀ t, r ≠ '.' :: t) : takeMinutes (minutesText mm ++ r) = some (mm, r) := by
+  cases mm with
+  | some m => simp [minutesText, takeMinutes, takeNum2_d2 m r (hmm m rfl)]
+  | none =>
+    simp only [minutesText, List.nil_append]
+    unfold takeMinutes
+    split
+    · rename_i t; exact absurd rfl (hr rfl t)
+    · rfl
+
+theorem takeMs_text (ms : Option Nat) (r : Str) (hms : ∀ m, ms = some m → m < 1000)
+    (hr : ms = none → ∀ t, r ≠ '.' :: t) : takeMs (msText ms ++ r) = some (ms, r) := by
+  cases ms with
+  | some m => simp [msText, takeMs, takeNum3_d3 m r (hms m rfl)]
+  | none =>
+    simp only [msText, List.nil_append]
+    unfold takeMs
+    split
+    · rename_i t; exact absurd rfl (hr rfl t)
+    · rfl
+
+theorem parseOffBody_render (o : OffText) (hne : o.hdigits ≠ []) (hd : ∀ d ∈ o.hdigits, d < 10)
+    (hmm : ∀ m, o.minutes = some m → m < 60) :
+    parseOffBody o.sign (o.hdigits.map dch ++ (minutesText o.minutes ++ nameText o.name)) = some o := by
+  have hnd : noDigitHead (minutesText o.minutes ++ nameText o.name) := by
+    cases o.minutes <;> cases o.name <;> simp [minutesText, nameText, noDigitHead] <;> decide
+  unfold parseOffBody
+  rw [spanDigits_map o.hdigits _ hd hnd]
+  simp only
+  rw [takeMinutes_text o.minutes (nameText o.name) (fun m hm => by have := hmm m hm; omega)
+    (by intro _ t; cases o.name <;> simp [nameText])]
+  simp only
+  cases hn : o.name <;> simp [nameText, offName] <;>
+    (obtain ⟨a, b, c, d⟩ := o; simp_all)
+
+theorem parseOff_render (o : OffText) (hne : o.hdigits ≠ []) (hd : ∀ d ∈ o.hdigits, d < 10)
+    (hmm : ∀ m, o.minutes = some m → m < 60) : parseOff o.render = some o := by
+  rw [OffText.render_eq]
+  unfold hoursText signText
+  have hb := parseOffBody_render o hne hd hmm
+  cases hs : o.sign with
+  | some b =>
+    rw [hs] at hb
+    cases b <;> simp only [List.cons_append, List.nil_append, parseOff] <;> exact hb
+  | none =>
+    rw [hs] at hb
+    simp only [List.nil_append]
+    cases hh : o.hdigits with
+    | nil => exact absurd hh hne
+    | cons a r =>
+      rw [hh] at hb
+      simp only [List.map_cons, List.cons_append] at hb ⊢
+      unfold parseOff
+      split
+      · rename_i t heq
+        have : dch a = '-' := (List.cons.inj heq).1
+        have h := isAsciiDigit_dch a; rw [this] at h; exact absurd h (by decide)
+      · rename_i t heq
+        have : dch a = '+' := (List.cons.inj heq).1
+        have h := isAsciiDigit_dch a; rw [this] at h; exact absurd h (by decide)
+      · exact hb
+
+theorem takeOff_text (off : Option OffText)
+    (h : ∀ o, off = some o → o.hdigits ≠ [] ∧ (∀ d ∈ o.hdigits, d < 10) ∧ (∀ m, o.minutes = some m → m < 60)) :
+    takeOff (offText off) = some off := by
+  cases off with
+  | none => rfl
+  | some o =>
+    obtain ⟨a, b, c⟩ := h o rfl
+    simp [offText, takeOff, parseOff_render o a b c]
+
+theorem parseTail_text (ms : Option Nat) (off : Option OffText) (hms : ∀ m, ms = some m → m < 1000)
+    (h : ∀ o, off = some o → o.hdigits ≠ [] ∧ (∀ d ∈ o.hdigits, d < 10) ∧ (∀ m, o.minutes = some m → m < 60)) :
+    parseTail (msText ms ++ offText off) = some (ms, off) := by
+  unfold parseTail
+  rw [takeMs_text ms (offText off) hms (by intro _ t; cases off <;> simp [offText])]
+  simp [takeOff_text off h]
+
+theorem parseTod_text (h mi s : Nat) (r : Str) (hv : h < 100 ∧ mi < 100 ∧ s < 100) :
+    parseTod (todText h mi s ++ r) = some ((h, mi, s), r) := by
+  unfold parseTod todText
+  simp only [List.append_assoc, takeNum2_d2 h _ hv.1, takeNum2_d2 mi _ hv.2.1, takeNum2_d2 s _ hv.2.2, bind, Option.bind,
+    pure]
+
+theorem off_parts_ok {p : Parts} {t : Bool} (hwf : p.wf t = true) :
+    ∀ o, p.off = some o → o.hdigits ≠ [] ∧ (∀ d ∈ o.hdigits, d < 10) ∧ (∀ m, o.minutes = some m → m < 60) := by
+  intro o ho
+  have h1 : o.wf = true := by
+    simp only [Parts.wf, Bool.and_eq_true] at hwf
+    have := hwf.2; rw [ho] at this; exact this
+  obtain ⟨a, b, c, _, _⟩ := wf_parts h1
+  exact ⟨a, b, c⟩
+
+/-- the recogniser finds the parts of every text of the notation -/
+theorem parse_complete (t : Bool) (p : Parts) (hwf : p.wf t = true) : parse t p.render = some p := by
+  have hoff := off_parts_ok hwf
+  have hwf0 := hwf
+  obtain ⟨date, tod, ms, off⟩ := p
+  simp only [Parts.wf, Bool.and_eq_true] at hwf
+  obtain ⟨⟨⟨hd, ht⟩, hms⟩, _⟩ := hwf
+  have hmsv : ∀ x, ms = some x → x < 1000 := by
+    intro x hx; rw [hx] at hms; simpa using hms
+  have hshape : parseShape t (Parts.render ⟨date, tod, ms, off⟩) = some ⟨date, tod, ms, off⟩ := by
+    cases date with
+    | none =>
+      simp only at hd
+      subst hd
+      cases tod with
+      | none => simp at ht
+      | some hms' =>
+        obtain ⟨h, mi, s⟩ := hms'
+        simp only [validTod, Bool.and_eq_true, decide_eq_true_eq] at ht
+        rw [render_time]
+        simp only [parseShape, if_true, bind, Option.bind,
+          parseTod_text h mi s _ ⟨by omega, by omega, by omega⟩, parseTail_text ms off hmsv hoff, pure]
+    | some ymd =>
+      obtain ⟨y, m, d⟩ := ymd
+      simp only [Bool.and_eq_true, Bool.not_eq_true'] at hd
+      obtain ⟨rfl, hvd⟩ := hd
+      obtain ⟨y1, y2, m1, m2, d1, d2'⟩ := validDate_bounds hvd
+      cases tod with
+      | none =>
+        simp only [Bool.not_false, Bool.true_and, Bool.and_eq_true, Option.isNone_iff_eq_none] at ht
+        obtain ⟨rfl, rfl⟩ := ht
+        have hr : Parts.render ⟨some (y, m, d), none, none, none⟩ = d4 y ++ (d2 m ++ (d2 d ++ [])) := by
+          simp [Parts.render]
+        rw [hr]
+        simp only [parseShape, Bool.false_eq_true, if_false, bind, Option.bind,
+          takeNum4_d4 y _ (by omega), takeNum2_d2 m _ (by omega), takeNum2_d2 d _ (by omega), pure]
+      | some hms' =>
+        obtain ⟨h, mi, s⟩ := hms'
+        simp only [validTod, Bool.and_eq_true, decide_eq_true_eq] at ht
+        rw [render_full]
+        have hr : dateText y m d ++ (todText h mi s ++ (msText ms ++ offText off))
+            = d4 y ++ (d2 m ++ (d2 d ++ (todText h mi s ++ (msText ms ++ offText off)))) := by
+          simp [dateText]
+        rw [hr]
+        simp only [parseShape, Bool.false_eq_true, if_false, bind, Option.bind,
+          takeNum4_d4 y _ (by omega), takeNum2_d2 m _ (by omega), takeNum2_d2 d _ (by omega)]
+        have hne : todText h mi s ++ (msText ms ++ offText off)
+            = dch (h / 10) :: (dch h :: (d2 mi ++ d2 s ++ (msText ms ++ offText off))) := by
+          simp [todText, d2]
+        have hpt := parseTod_text h mi s (msText ms ++ offText off) ⟨by omega, by omega, by omega⟩
+        rw [hne] at hpt ⊢
+        simp only [hpt, parseTail_text ms off hmsv hoff, pure]
+  unfold parse
+  rw [hshape]
+  simp only [hwf0, if_true]
+
+theorem inNotation_iff (t : Bool) (s : Str) : InNotation t s ↔ inNotationB t s = true := by
+  constructor
+  · rintro ⟨p, hwf, rfl⟩
+    simp [inNotationB, parse_complete t p hwf]
+  · exact inNotationB_sound t s
+
+/-! ### the Interactive Brokers form -/
+
+/-- the bracket of the Interactive Brokers form: hours text, `:`, name -/
+def ibText (hh n : Str) : Str := '[' :: (hh ++ (':' :: (n ++ [']'])))
+
+theorem hoursScan_ib (hh n : Str) (hne : hh ≠ []) (hall : ∀ c ∈ hh, isHoursChar c = true) (hn : '\n' ∉ n) :
+    hoursScan [] (hh ++ (':' :: (n ++ [']']))) = some (hh, none, some n) := by
+  apply hoursScan_run hh [] _ _ hne hall
+  · intro c r hcr
+    have := (List.cons.inj hcr).1
+    rw [← this]; decide
+  · simp only [List.reverse_nil, List.nil_append, offTail]
+    simp [nameTail_some n hn]
+
+theorem afterSeconds_ib (g : Groups) (ms : Option Nat) (hh n : Str)
+    (hg : g.ms = none ∧ g.offH = none ∧ g.offM = none ∧ g.name = none)
+    (hne : hh ≠ []) (hall : ∀ c ∈ hh, isHoursChar c = true) (hn : '\n' ∉ n) :
+    afterSeconds g (msText ms ++ ibText hh n)
+      = some { g with ms := ms.map d3, offH := some hh, offM := none, name := some n } := by
+  obtain ⟨y, mo, d, h, mi, s, ms', oh, om, nm⟩ := g
+  simp only at hg
+  obtain ⟨rfl, rfl, rfl, rfl⟩ := hg
+  cases ms with
+  | some m => simp [msText, ibText, afterSeconds, d3, isAsciiDigit_dch, hoursScan_ib hh n hne hall hn]
+  | none => simp [msText, ibText, afterSeconds, hoursScan_ib hh n hne hall hn]
+
+theorem dtRegex_ib (y m d h mi s : Nat) (ms : Option Nat) (hh n : Str)
+    (hm : 1 ≤ m ∧ m ≤ 12) (hd : 1 ≤ d ∧ d ≤ 31) (hv : h < 24 ∧ mi < 60 ∧ s < 60)
+    (hne : hh ≠ []) (hall : ∀ c ∈ hh, isHoursChar c = true) (hn : '\n' ∉ n) :
+    dtRegex (dateText y m d ++ (todText h mi s ++ (msText ms ++ ibText hh n)))
+      = some { year := some (d4 y), month := some (d2 m), day := some (d2 d),
+               hour := some (d2 h), minute := some (d2 mi), second := some (d2 s),
+               ms := ms.map d3, offH := some hh, offM := none, name := some n } := by
+  unfold dtRegex
+  have ha := afterSeconds_ib
+    ({ year := some (d4 y), month := some (d2 m), day := some (d2 d), hour := some (d2 h), minute := some (d2 mi), second := some (d2 s) } : Groups)
+    ms hh n ⟨rfl, rfl, rfl, rfl⟩ hne hall hn
+  simp only [dateText, todText, d4, d2, List.cons_append, List.nil_append, isAsciiDigit_dch, mdOk,
+    monthOk_d2 m (by omega) hm.1, dayOk_d2 d (by omega) hd.1, Bool.and_self, if_true, timePart, hmsOk,
+    hourOk_d2 h hv.1, minOk_d2 mi hv.2.1, secOk_d2 s hv.2.2]
+  simp only [d4, d2] at ha
+  exact ha
+
+theorem parseGmtOffset_ib (tzs : List (Str × Int)) (hh n : Str) (z : Int)
+    (hint : pyIntSigned hh = none) (hz : tzs.lookup n = some z) (hr : -12 ≤ z ∧ z ≤ 14) :
+    parseGmtOffset tzs (some hh) none (some n) = .ok (60 * z) := by
+  have h1 : ¬ (z < -12 ∨ z > 14) := by omega
+  simp only [parseGmtOffset, hint, hz, intOfAscii, gmtOffset, h1, if_false, bind, Except.bind, pure, Except.pure]
+  congr 1
+  by_cases hz0 : z = 0
+  · subst hz0; simp
+  · have : (z == 0) = false := by simpa using hz0
+    simp only [this, Bool.and_false, Bool.false_eq_true, if_false]
+    by_cases hneg : z < 0
+    · simp only [hneg, if_true]; omega
+    · simp only [hneg, if_false]; omega
+
+/-- reading the Interactive Brokers form `YYYYMMDDHHMMSS[.XXX][h:NAME]`: the offset is `TZS[NAME]` hours -/
+theorem dtConvertStr_ib (tzs : List (Str × Int)) (y m d h mi s : Nat) (ms : Option Nat) (hh n : Str) (z : Int)
+    (hdate : Spec.Instant.validDate y m d = true) (htod : validTod h mi s = true)
+    (hms : ∀ x, ms = some x → x < 1000)
+    (hne : hh ≠ []) (hall : ∀ c ∈ hh, isHoursChar c = true) (hn : '\n' ∉ n)
+    (hint : pyIntSigned hh = none) (hz : tzs.lookup n = some z) (hzr : -12 ≤ z ∧ z ≤ 14)
+    (hrange : minInstant ≤ instantOf y m d h mi s (ms.getD 0) (60 * z)
+      ∧ instantOf y m d h mi s (ms.getD 0) (60 * z) < endInstant) :
+    ∃ f, dtConvertStr tzs (dateText y m d ++ (todText h mi s ++ (msText ms ++ ibText hh n)))
+        = .ok (.dt (dtOfFields f (some utcTz)))
+      ∧ Cal.validDate f.year f.month f.day = true ∧ validTime f.hour f.minute f.second f.us = true
+      ∧ toUs f.year f.month f.day f.hour f.minute f.second f.us
+          = 1000 * instantOf y m d h mi s (ms.getD 0) (60 * z) := by
+  obtain ⟨y1, y2, m1, m2, d1, d2'⟩ := validDate_bounds hdate
+  simp only [validTod, Bool.and_eq_true, decide_eq_true_eq] at htod
+  obtain ⟨⟨t1, t2⟩, t3⟩ := htod
+  have hmsv : ms.getD 0 < 1000 := by
+    cases ms with
+    | none => simp
+    | some x => simpa using hms x rfl
+  obtain ⟨u1, u2⟩ := range_us _ hrange
+  rw [← toUs_instant y m d h mi s (ms.getD 0) ⟨m1, m2⟩ (60 * z)] at u1 u2 ⊢
+  obtain ⟨f, hf, v1, v2, v3⟩ := fromUs_spec _ u1 u2
+  refine ⟨f, ?_, v1, v2, v3⟩
+  have hvd : Cal.validDate y m d = true := by rw [← spec_validDate_eq]; exact hdate
+  have hvt : validTime h mi s (1000 * ms.getD 0) = true := by
+    simp only [validTime, Bool.and_eq_true, decide_eq_true_eq]; omega
+  simp only [dtConvertStr, dtRegex_ib y m d h mi s ms hh n ⟨m1, m2⟩ ⟨d1, d2'⟩ ⟨t1, t2, t3⟩ hne hall hn,
+    parseGmtOffset_ib tzs hh n z hint hz hzr,
+    intOfAscii_d4 y (by omega), intOfAscii_d2 m (by omega), intOfAscii_d2 d (by omega),
+    intOfAscii_d2 h (by omega), intOfAscii_d2 mi (by omega), intOfAscii_d2 s (by omega),
+    intOfAscii_ms ms hms, bind, Except.bind, pure, Except.pure, hvd, hvt, Bool.and_self, Bool.not_true,
+    Bool.false_eq_true, if_false, hf]
 end Ofx.DateTime
